@@ -278,7 +278,7 @@ func c01Programs(seed int64, perConfig int) []*gen.Program {
 				for _, ngs := range []bool{false, true} {
 					for k := 0; k < perConfig; k++ {
 						cfg := gen.Config{
-							Profile:   []string{"mixed", "buckets", "structural", "big", "overwrite"}[i%5],
+							Profile:   []string{"mixed", "buckets", "structural", "big", "overwrite", "bigkeys"}[i%6],
 							PageSize:  ps,
 							Txs:       5,
 							OpsPerTx:  7,
@@ -291,6 +291,10 @@ func c01Programs(seed int64, perConfig int) []*gen.Program {
 							cfg.Txs = 3
 						}
 						cfg.Opts = gen.OpenOpts{Freelist: fl, NoFreelistSync: nfs, NoGrowSync: ngs}
+						cfg.NoBigKeys = cfg.Profile != "bigkeys"
+						if i%4 == 2 {
+							cfg.OptSched = sessionOpts // a later session may switch backend, freelist-sync and grow-sync
+						}
 						cfg.Managed = 0.3 // transactions through DB.Update, some of whose bodies fail or panic
 						if i%3 == 1 && cfg.Profile != "big" {
 							cfg.HeldReaders = 0.4 // open readers withhold pages during the traced history
